@@ -41,12 +41,12 @@ def main():
             continue
         shutil.copy(f"{d}/demo.py", f"{SV}/_demo.py")
         env = {"PYTHONPATH": SV}
-        rc0, o0 = sh(f"{PY} _demo.py", cwd=SV, env=env, timeout=180)
+        rc0, o0 = sh(f"{PY} _demo.py {SV}", cwd=SV, env=env, timeout=180)
         sh(f"git apply {d}/patch.diff", cwd=SV)
         rct, ot = sh(f"{PY} -m pytest -q -p no:cacheprovider tests", cwd=SV)
         if "71 passed" not in ot:
             rct, ot = sh(f"{PY} -m pytest -q -p no:cacheprovider tests", cwd=SV)
-        rc1, o1 = sh(f"{PY} _demo.py", cwd=SV, env=env, timeout=180)
+        rc1, o1 = sh(f"{PY} _demo.py {SV}", cwd=SV, env=env, timeout=180)
         ok = rc0 == 0 and "71 passed" in ot and rc1 != 0
         meta.update({"applies": True, "repo_head": head, "demo_rc_clean": rc0, "tests_with_change": ot.strip().split("\n")[-1], "demo_rc_with_change": rc1, "confirmed": ok})
         json.dump(meta, open(f"{d}/meta.json", "w"), indent=1)
